@@ -65,7 +65,7 @@ def plan(tier, seed):
     if q:
         fams.append(('grow2-full', ELEMS_FULL, 2, 'full', 4))
         fams.append(('grow3-full', ELEMS_FULL, 3, 'lite2', 4))
-        fams.append(('grow4-CNO', ELEMS_3, 4, 'lite2', 4))
+        fams.append(('grow4-CNO', ELEMS_3, 4, 'lite3', 4))
     else:
         fams.append(('grow2-full', ELEMS_FULL, 2, 'full', 4))
         fams.append(('grow3-full', ELEMS_FULL, 3, 'lite', 4))
@@ -73,7 +73,7 @@ def plan(tier, seed):
         fams.append(('grow5-CO', (('C', 0), ('O', 0)), 5, 'lite2', 4))
     for name, elems, n, level, maxfrag in fams:
         mols, ex = enumerate_molecules(elems, n)
-        chunk = 12 if level == 'lite2' else 3
+        chunk = 12 if level in ('lite2', 'lite3') else 3
         for i in range(0, len(mols), chunk):
             tasks.append({'space': name, 'mols': mols[i:i + chunk], 'level': level, 'max_frag': maxfrag,
                           'pre': (ex.states, ex.transitions) if i == 0 else (0, 0)})
@@ -130,7 +130,7 @@ def orders_for(k, level):
     ident = tuple(range(k))
     rev = tuple(reversed(ident))
     rot = ident[1:] + ident[:1]
-    return [ident, rev] if level == 'lite2' else [ident, rev, rot] if k > 2 else [ident, rev]
+    return [ident, rev] if level in ('lite2', 'lite3') else [ident, rev, rot] if k > 2 else [ident, rev]
 
 
 def kinds_for(ncut, level):
@@ -140,7 +140,7 @@ def kinds_for(ncut, level):
         return list(itertools.product('$>', repeat=ncut))
     if level == 'hub':
         return [('$',)]
-    return [('$',), ('>',), ('$', '<')] if level != 'lite2' else [('$',), ('>', '<')]
+    return [('$',), ('>',), ('$', '<')] if level not in ('lite2', 'lite3') else [('$',), ('>', '<')]
 
 
 def leaves(mol, comps, level):
@@ -150,9 +150,9 @@ def leaves(mol, comps, level):
     styles = STYLES_FULL if level == 'full' else STYLES_LITE if level == 'lite' else STYLES_LITE[:2] if level != 'hub' else STYLES_LITE[:1]
     levels = [kinds_for(ncut, level), orders_for(k, level)]
     for c in comps:
-        levels.append(list(c) if level not in ('lite2', 'hub') else [c[0], c[-1]] if (len(c) > 1 and level != 'hub') else [c[0]])
+        levels.append(list(c) if level not in ('lite2', 'lite3', 'hub') else [c[0], c[-1]] if (len(c) > 1 and level == 'lite2') else [c[-1] if level == 'lite3' else c[0]])
     levels.append(list(range(len(styles))))
-    levels.append(['string'] if level == 'hub' else ['graph', 'string', 'graph-rev', 'dicts-rev'] if level != 'lite2' else ['graph'])
+    levels.append(['string'] if level == 'hub' else ['graph', 'string', 'graph-rev', 'dicts-rev'] if level not in ('lite2', 'lite3') else ['graph'])
 
     def succ(prefix):
         d = len(prefix)
